@@ -5226,6 +5226,8 @@ class DfaCompileCtx:
         Convert the AST into a (potentially optimized) DFA.
         """
 
+        if self.ast is None:
+            raise IllegalASTStateError("The parser does not contain any statement that matches input")
         self.dfa = self.ast.convert(defaultdict(lambda: self.generic_fail_state))
         self.dfa.add(self.generic_fail_state)
 
